@@ -22,9 +22,10 @@
  *      area callback answering IO_ERROR), and then the block write is decided
  *      against the flat model evaluated on the storage as that operation left
  *      it.  The result of the earlier operation is not judged.  When an
- *      injected callback fault was reached and the table answers UNINITIALISED
- *      to a zero-length block read afterwards (a fail-safe library taking the
- *      table out of service; no statement mentions driver I/O errors) the case
+ *      injected callback fault was reached and the table answers any non-success
+ *      code to a zero-length block read or to a full-extent block read of one
+ *      of its areas afterwards (a fail-safe library taking the table, or the
+ *      failing area, out of service; no statement mentions driver I/O errors) the case
  *      ends as the trivial class latched-after-fault.
  *   T  top of the address space (regfam.h, fam_enumerate_top): the family moved
  *      up so that the last word of the layout is 0xffffffff -- the last area,
@@ -441,7 +442,8 @@ establish_image(void)
 }
 
 /* HC_LATCHED: the earlier operation reached its injected callback fault and
- * the table answers UNINITIALISED afterwards (public probe).  No statement
+ * the table refuses a zero-length / full-extent block read of its areas
+ * afterwards (public probe, any non-success code).  No statement
  * mentions driver I/O errors; a library that takes the table out of service
  * after one keeps the statement true: the case is not judged. */
 enum { HC_OK, HC_REFUSED, HC_FAULT_REACHED, HC_FAULT_NOT_REACHED, HC_LATCHED };
@@ -576,7 +578,7 @@ run_hist(const struct hist *h)
     const bool latched = fault && hit && tab_out_of_service(&tb);
     if (mc.verbose && mc.active)
         mc_log("earlier operation %s -> %s@%u%s%s", hist_str(h), acc(a.code), a.address, fault ? (hit ? " (fault reached)" : " (fault not reached)") : "",
-               latched ? "; the table answers UNINITIALISED afterwards: out of service, not judged" : "");
+               latched ? "; the table refuses a zero-length or full-extent block read of its areas afterwards: out of service, not judged" : "");
     if (latched)
         return HC_LATCHED;
     if (fault)
